@@ -25,5 +25,6 @@ func Quiesce()                            {}
 func At(site string)                      {}
 func Done(site string)                    {}
 func Replace(name string, fn interface{}) {}
+func ReportRaces()                         {}
 func LiveGoroutines() int                  { return 0 }
 func Ite(c bool, a, b int) int            { if c { return a }; return b }
